@@ -252,15 +252,15 @@ Section Node.
   (* advance_round *)
   Definition advance_round (r : N) : M unit :=
     s <- get ;;
-    if g_advance_guard r (s_round s) then ret tt
+    if g_advance_guard r (s_round s) (qc_round (s_high_qc s)) (s_last_voted s) (s_last_committed s) then ret tt
     else modify (fun s =>
-           let nr := g_advance_next r in
+           let nr := g_advance_next r (s_round s) (qc_round (s_high_qc s)) (s_last_voted s) (s_last_committed s) in
            let s := set_round s nr in
            let s := set_qcm s (filter (fun e => nr <=? fst (fst e)) (s_qcm s)) in
            set_tcm s (filter (fun e => nr <=? fst e) (s_tcm s))).
 
   Definition update_high_qc (qc : QC) : M unit :=
-    modify (fun s => if g_update_high_qc (qc_round qc) (qc_round (s_high_qc s)) then set_high_qc s qc else s).
+    modify (fun s => if g_update_high_qc (qc_round qc) (s_round s) (qc_round (s_high_qc s)) (s_last_voted s) (s_last_committed s) then set_high_qc s qc else s).
 
   Definition process_qc (qc : QC) : M unit := advance_round (qc_round qc) ;;; update_high_qc qc.
 
@@ -345,7 +345,7 @@ Section Node.
 
   Definition commit (b : Block) : M unit :=
     s <- get ;;
-    if g_commit_skip (s_last_committed s) (b_round b) then ret tt
+    if g_commit_skip (b_round b) (s_round s) (qc_round (s_high_qc s)) (s_last_voted s) (s_last_committed s) then ret tt
     else
       let fuel := S (S (ddepth (block_digest b))) in
       let acc0 := if dq_head_first dq then dq_push (dq_head_front dq) b [] else [] in
@@ -362,15 +362,17 @@ Section Node.
 
   Definition make_vote (b : Block) : M (option Vote) :=
     s <- get ;;
-    let rule1 := g_safety_rule_1 (b_round b) (s_last_voted s) in
-    let rule2 := g_safety_rule_2 (qc_round (b_qc b)) (b_round b) in
+    let tcr := match b_tc b with Some tc => tc_round tc | None => 0 end in
+    let rule1 := g_safety_rule_1 (b_round b) (qc_round (b_qc b)) tcr 0 (s_round s) (qc_round (s_high_qc s)) (s_last_voted s) (s_last_committed s) in
+    let rule2 := g_safety_rule_2 (b_round b) (qc_round (b_qc b)) tcr 0 (s_round s) (qc_round (s_high_qc s)) (s_last_voted s) (s_last_committed s) in
     r2 <- (match b_tc b with
            | None => ret rule2
            | Some tc =>
                match list_max (tc_hqrs tc) with
                | None => panic 105     (* expect("Empty TC") *)
                | Some m =>
-                   let can_extend := g_can_extend (tc_round tc) (b_round b) && g_can_extend_hq (qc_round (b_qc b)) m in
+                   let can_extend := g_can_extend (b_round b) (qc_round (b_qc b)) (tc_round tc) m (s_round s) (qc_round (s_high_qc s)) (s_last_voted s) (s_last_committed s) &&
+                                     g_can_extend_hq (b_round b) (qc_round (b_qc b)) (tc_round tc) m (s_round s) (qc_round (s_high_qc s)) (s_last_voted s) (s_last_committed s) in
                    ret (rule2 || can_extend)
                end
            end) ;;
@@ -395,7 +397,7 @@ Section Node.
 
   Definition handle_vote (hint : list N) (v : Vote) : M unit :=
     s <- get ;;
-    if g_vote_stale (v_round v) (s_round s) then ret tt
+    if g_vote_stale (v_round v) (s_round s) (qc_round (s_high_qc s)) (s_last_voted s) (s_last_committed s) then ret tt
     else
       lift (vote_verify c v) ;;;
       let k := (v_round v, v_hash v) in
@@ -412,7 +414,7 @@ Section Node.
 
   Definition handle_timeout (hint : list N) (t : Timeout) : M unit :=
     s <- get ;;
-    if g_timeout_stale (t_round t) (s_round s) then ret tt
+    if g_timeout_stale (t_round t) (s_round s) (qc_round (s_high_qc s)) (s_last_voted s) (s_last_committed s) then ret tt
     else
       lift (timeout_verify c t) ;;;
       process_qc (t_high_qc t) ;;;
@@ -452,11 +454,11 @@ Section Node.
         | Some b0 =>
             store_block b ;;;
             proposer_cleanup (b_payload b0 ++ b_payload b1 ++ b_payload b) ;;;
-            (if g_two_chain (b_round b0) (b_round b1)
+            (if g_two_chain (b_round b0) (b_round b1) (b_round b)
              then emit (OMemCleanup (b_round b0)) ;;; pw_cleanup (b_round b0) ;;; commit b0
              else ret tt) ;;;
             s <- get ;;
-            if g_round_gate (b_round b) (s_round s) then ret tt
+            if g_round_gate (b_round b) (qc_round (b_qc b)) (s_round s) (qc_round (s_high_qc s)) (s_last_voted s) (s_last_committed s) then ret tt
             else
               ov <- make_vote b ;;
               match ov with
@@ -491,7 +493,7 @@ Section Node.
   Definition handle_tc (hint : list N) (tc : TC) : M unit :=
     lift (tc_verify c tc) ;;;
     s <- get ;;
-    if g_tc_stale (tc_round tc) (s_round s) then ret tt
+    if g_tc_stale (tc_round tc) (s_round s) (qc_round (s_high_qc s)) (s_last_voted s) (s_last_committed s) then ret tt
     else advance_round (tc_round tc) ;;;
          s <- get ;;
          if me =? leader c (s_round s) then generate_proposal hint (Some tc) else ret tt.
